@@ -8,7 +8,17 @@ use rayon::prelude::*;
 use crate::model::{Content, State};
 
 pub fn write_file(key: &String, content: &Content, to: &PathBuf) -> std::io::Result<()> {
-    fs::write(to.clone().join(format!("{}.md", key)), content.as_str())
+    // write a sibling temporary file and rename it over the note, so that a failed or
+    // interrupted write (disk full, quota, kill) never leaves a truncated or empty note
+    let path = to.clone().join(format!("{}.md", key));
+    let temporary = to.clone().join(format!("{}.md.iwe-tmp", key));
+
+    fs::write(&temporary, content.as_str())
+        .and_then(|_| fs::rename(&temporary, &path))
+        .map_err(|error| {
+            let _ = fs::remove_file(&temporary);
+            error
+        })
 }
 
 pub fn new_for_path(base_path: &PathBuf) -> State {
